@@ -269,6 +269,8 @@ def run_case(case: Dict[str, Any]) -> Dict[str, Any]:
         def responder(req: Dict[str, Any], name: str) -> List[bytes]:
             rid = req['hd'].get(b'x-req-id', b'?').decode('latin-1')
             body = b'O|%s|the quick brown fox jumps over the lazy dog qwe qwe' % rid.encode()
+            if rid == 'r0' and case.get('stalled_reader'):
+                body += b' qwe' * (case['stalled_reader'] // 4)      # far more than one flush: stays queued while the client does not read
             body_by_rid[rid] = body
             raw = b'HTTP/1.1 200 OK\r\nContent-Length: %d\r\nX-Req-Id: %s\r\n\r\n' % (len(body), rid.encode()) + body
             return conv.cut_bytes(rng, raw, case.get('resp_cuts', 0))
@@ -286,6 +288,8 @@ def run_case(case: Dict[str, Any]) -> Dict[str, Any]:
                 c.send_some()
 
         def n_responses() -> int:
+            if case.get('stalled_reader') and len(client.rx) < case['stalled_reader']:
+                return 0        # (do not re-parse megabytes on every iteration)
             ms, _, _ = h11util.parse_responses(bytes(client.rx), [b'GET'] * 8, eof=False)
             return sum(1 for m in ms if m['complete'])
 
@@ -324,6 +328,33 @@ def run_case(case: Dict[str, Any]) -> Dict[str, Any]:
                 wait(lambda: client.ended)
                 if not client.ended:
                     client.close()      # e.g. a plugin declined the upstream connection: nothing for the origin to abort
+            elif case.get('stalled_reader'):
+                # the client does not read: the first answer piles up inside the proxy; the follow-ups arrive meanwhile (pipelined
+                # behind output that is still pending) and only then does the client start reading
+                def piled_up() -> bool:
+                    # the origin has written its whole answer AND the proxy has taken all of it in (nothing left in the upstream
+                    # socket): no answer is outstanding upstream when the follow-up arrives
+                    import fcntl, termios, struct
+                    pump_all()
+                    if not (ao.all_requests() and all(not c.out for c in ao.conns) and any(monitors.client_buffer_depth(w) > 0 for w in rig.work_objs())):
+                        return False
+                    for w in rig.work_objs():
+                        up = getattr(w.plugin, 'upstream', None)
+                        if up is None or up.closed:
+                            return False
+                        if struct.unpack('i', fcntl.ioctl(up.connection.fileno(), termios.FIONREAD, b'\0\0\0\0'))[0] > 0:
+                            return False
+                    held = sum(len(bytes(b)) for w in rig.work_objs() for b in w.work.buffer)
+                    return held + len(client.rx) + 200000 >= case['stalled_reader'] or held > 0 and all(c.peer.tx >= case['stalled_reader'] for c in ao.conns)
+                rig.until(piled_up, [], idle_timeout=0.5)
+                obs['followups_sent_behind_pending_output'] = 1 if any(monitors.client_buffer_depth(w) > 0 for w in rig.work_objs()) else 0
+                for k in range(nfollow):
+                    client.send(request('f%d' % k))
+                    rig.step(rng.randint(1, 4))
+                    pump_all()
+                wait(lambda: n_responses() >= 1 + nfollow or client.ended)
+                if not client.ended:
+                    client.close()
             else:
                 wait(lambda: n_responses() >= 1 or client.ended)
                 for k in range(nfollow):
@@ -335,6 +366,8 @@ def run_case(case: Dict[str, Any]) -> Dict[str, Any]:
                     client.reset_close()
                 elif not client.ended:
                     client.close()
+        if case.get('stalled_reader'):
+            rig.until(lambda: not rig.works, [], idle_timeout=1.0)      # megabytes were in flight: let the proxy finish with the connection
         rig.settle([], quiet=8)
         pump_all()
         log = list(LOG)
@@ -402,9 +435,14 @@ def run_case(case: Dict[str, Any]) -> Dict[str, Any]:
             at = stream.rfind(b'HTTP/1.1 %d ' % (470 + idx))
             tail_ms, tail_err, tail_rest = h11util.parse_responses(stream[at:] if at >= 0 else b'', [b'GET'], eof=client.eof)
             mine = [m for m in tail_ms if m['complete']]
-            if at < 0 or tail_err or tail_rest or len(mine) != 1 or mine[0]['body'] != want_body \
-                    or dict(mine[0]['headers']).get(b'x-rejected-by') != b'P%d' % idx or mine[0]['reason'] != b'Rejected by P%d' % idx \
-                    or stream.count(b'HTTP/1.1 %d ' % (470 + idx)) != 1:
+            as_chosen = bool(mine) and mine[0]['body'] == want_body and dict(mine[0]['headers']).get(b'x-rejected-by') == b'P%d' % idx \
+                and mine[0]['reason'] == b'Rejected by P%d' % idx and stream.count(b'HTTP/1.1 %d ' % (470 + idx)) == 1
+            if as_chosen and not tail_err and not tail_rest and len(mine) > 1 and case.get('stalled_reader') \
+                    and all(m['code'] == 200 and dict(m['headers']).get(b'x-req-id', b'').startswith(b'f') for m in mine[1:]):
+                # the rejection is as chosen, but answers to EARLIER pipelined requests, still outstanding upstream when the
+                # rejection was queued, are relayed after it (see known findings)
+                bad('%s|pipelined-rejection-overtakes-outstanding-responses' % rej[1], after=[dict(m['headers']).get(b'x-req-id') for m in mine[1:]])
+            elif at < 0 or tail_err or tail_rest or len(mine) != 1 or not as_chosen:
                 bad('%s|rejection-response-not-as-chosen' % rej[1], client=bytes(client.rx[-300:]), err=tail_err)
             elif not client.ended:
                 bad('%s|connection-open-after-rejection' % rej[1])
@@ -554,6 +592,16 @@ def cases(tier: str, seed: int):
                 i += 1
                 yield {'seed': seed, 'i': i, 'kind': 'auth-order', 'order': order, 'auth_at': pos, 'as_name': as_name,
                        'mode': 'local' if i % 3 else 'remote'}
+    # follow-ups arriving while the first answer is still queued for a client that does not read
+    for order in orders:
+        for (hook, beh, nth) in [('handle_client_request', 'reject', 2), ('handle_client_request', 'modify', 2)]:
+            for pos in range(len(order)):
+                if tier == 'quick' and (len(order) + pos + nth) % 2:
+                    continue
+                i += 1
+                yield {'seed': seed, 'i': i, 'order': order, 'table': {'%d:%s' % (order[pos], hook): [beh, nth]}, 'ending': 'normal',
+                       'followups': 1,     # one follow-up: nothing is outstanding upstream, nothing is sent behind a request that may get the connection closed
+                       'resp_cuts': 0, 'stalled_reader': [400000, 3000000][i % 2], 'transport': 'tcp'}
     # exhaustive: one non-pass behaviour of one plugin at one hook
     for order in orders:
         for ending in endings:
@@ -588,6 +636,7 @@ def cases(tier: str, seed: int):
         i += 1
         yield {'seed': seed, 'i': i, 'order': order, 'table': tb, 'ending': rng.choice(ENDINGS_ALL), 'followups': rng.choice([0, 1, 3]),
                'reject_pad': rng.choice([0, 0, 70000]), 'pp': rng.choice([None, None, None, 'TCP4', 'TCP6', 'UNKNOWN']),
+               'transport': 'tcp',
                'resp_cuts': rng.choice([0, 2, 5]), 'mode': rng.choice(['local', 'local', 'remote'])}
 
 
@@ -595,7 +644,7 @@ def floors(tier: str) -> Dict[str, int]:
     return {'chain_rounds_checked': 2000, 'chunk_rounds_checked': 500, 'lifecycle_checked': 800, 'rejections_checked': 100,
             'forwarded_requests_checked': 500, 'followups_checked': 300, 'distinct:hook_behaviour_position': 30,
             'ending:client-reset-mid-request': 10, 'ending:origin-reset-mid-response': 10, 'client_stream_vs_chain_checked': 100,
-            'auth_order_checked': 60, 'proxy_protocol:UNKNOWN': 20, 'proxy_protocol:TCP4': 20}
+            'auth_order_checked': 60, 'proxy_protocol:UNKNOWN': 20, 'proxy_protocol:TCP4': 20, 'followups_sent_behind_pending_output': 15}
 
 
 if __name__ == '__main__':
